@@ -668,7 +668,9 @@ def rule_r1(chk, F, cg, ef, reach, entries):
         r.floor("crates analysed", len(present), 9)
     # errors abort the build before anything is emitted (premise of recogniser iv')
     cp = "dora::driver::start::compile_program"
-    if r.anchor(cp, cp in cg.bodies):
+    if RESTRICTED and cp not in cg.bodies:
+        r.observe("driver crate not among VERIF_PACKAGES: the errors-abort-the-build premise is not re-checked")
+    elif r.anchor(cp, cp in cg.bodies):
         B = cg.body(cp)
         rep = B.calls_to("driver::start::report_errors")
         emit = B.calls_to("dora_frontend::emit_program") or B.calls_to("program_emitter::emit_program")
@@ -768,6 +770,8 @@ def rule_r1(chk, F, cg, ef, reach, entries):
             live += 1
         if verdict is not None:
             lint_log.append((key, is_live, verdict))
+            if not is_live:
+                r.observe("dead site (no caller from a build entry; accepted: %s): %s" % (verdict[:60], key))
             continue
         lint_log.append((key, is_live, "REJECTED %s" % sorted(labels)))
         msg = ("the iteration order of `%s` (std hash container, %s hasher) can influence state that outlives the "
@@ -921,6 +925,9 @@ def rule_r3(chk, F, cg, ef):
                 runs.append(c)
         if libs:
             cands.append((p, B, libs, flags, runs))
+    if RESTRICTED and not any(cn == "dora" for (cn, b) in cg.bodies.values()):
+        r.observe("driver crate not among VERIF_PACKAGES: rule not evaluated in this self-test run")
+        return
     if not r.anchor("a driver function that builds a linker command line (`-l…` arguments)", cands):
         return
     for (p, B, libs, flags, runs) in cands:
@@ -986,7 +993,7 @@ def rule_r4(chk, F):
                 if tail in names or (tail in ("keys", "values", "iter") and len(it.split(".")) > 1 and
                                      it.split(".")[-2] in names):
                     sites += 1
-                    r.instance("%s:for-in:%s" % (f, it))
+                    r.instance("%s:for-in:%s#%d" % (f, it, sites))
                     if sites <= 25:
                         r.observe("%s:%d iterates hash container `%s`" % (f, n[1], it))
         for n in doraq.walk(D[f]):
@@ -1028,18 +1035,22 @@ def run(chk, F):
     cg = CallGraph(F, libs=GRAPH_LIBS, bins=BINS)
     r0 = chk.rule("C15.R0", "analysis frame: build-producing entry points and the frontend's diagnostic sink exist")
     entries = build_entries(cg)
-    r0.anchor("dora::main", "dora::main" in cg.bodies)
+    db = diag_base(cg)
     if not RESTRICTED:
+        r0.anchor("dora::main", "dora::main" in cg.bodies)
         r0.anchor("dora_cannon_compiler::main (bin)", "dora_cannon_compiler::main" in cg.bodies)
         r0.anchor("dora_startup::boots::dora_boots_compiler_main",
                   "dora_startup::boots::dora_boots_compiler_main" in cg.bodies)
-    db = diag_base(cg)
-    r0.anchor("dora_frontend::error::diag::Diagnostic::{report,warn}",
-              "err" in db.values() and "warn" in db.values())
+        r0.anchor("dora_frontend::error::diag::Diagnostic::{report,warn}",
+                  "err" in db.values() and "warn" in db.values())
     r0.instance("entries", sample={"entries": entries})
-    if not entries or not db:
+    if entries:
+        reach = cg.reachable_from(entries)
+    elif RESTRICTED:
+        r0.observe("no build entry among VERIF_PACKAGES: every site is treated as live")
+        reach = set(cg.bodies)
+    else:
         return
-    reach = cg.reachable_from(entries)
     ef = E.Effects(cg, db)
     rule_r1(chk, F, cg, ef, reach, entries)
     rule_r2(chk, F, cg, ef, reach)
